@@ -230,6 +230,7 @@ def _ext(name):
         V1, V2 = mk('V1', 'v1', int, 1), mk('V2', 'v2', str, 's')
         I1, I2 = mk('I1', 1, int, 1), mk('I2', 2, t.List[int], [])
         _EXT_CACHE['V1'], _EXT_CACHE['V2'] = V1, V2
+        _EXT_CACHE['I1'], _EXT_CACHE['I2'] = I1, I2
         _EXT_CACHE['tag_int'] = pin(t.Annotated[t.Union[V1, V2], Tagged('x')])
         _EXT_CACHE['tag_ext'] = pin(t.Annotated[t.Union[V1, V2], Tagged('x', external=True)])
         _EXT_CACHE['tag_adj'] = pin(t.Annotated[t.Union[V1, V2], Tagged('x', external=('t', 'c'))])
